@@ -784,6 +784,8 @@ def fdef(pyfunc):
   return _src_cache[pyfunc]
 
 
+_GLOBAL_FRESH = itertools.count()
+
 UF_MATH = ("sin", "cos", "tan", "asin", "acos", "atan", "atan2", "exp", "log", "pow", "tanh", "sinh", "cosh", "log2", "log10")
 
 
@@ -793,7 +795,7 @@ class Interp:
     self.obl = []
     self.unroll = unroll
     self.tid = tid
-    self.fresh = itertools.count()
+    self.fresh = _GLOBAL_FRESH  # process-wide: several Interp instances (threads of a host run) must not alias fresh symbols
     self.assumes = []
     self.accesses = []
     self.track_access = track_access
